@@ -44,6 +44,8 @@ def cases(rng, tier, nbase=None, **kw):
             # make sure the interesting switches are hit regularly
             opts[0] = dict(opts[0], bm_host=True)
             opts[1] = dict(opts[1], encase=True, bm_host=False, bm_vertex=False)
+            if i % 2 == 0:
+                opts[2] = dict(opts[2], mv=opts[0]["mv"])      # two option sets with one representation: same field lists
         for o in opts:
             out.append({"wgsl": p["wgsl"], "family": "structs", "opts": dict(o), "truth": p["truth"],
                         "needs_encase": p["needs_encase"]})
